@@ -1957,17 +1957,21 @@ def has_union(c: Case) -> bool:
     return mentions(c.top, "union") or any(mentions(ft, "union") for k in c.sch.classes for _, ft in k["fields"])
 
 
+RUN_TAG = [""]     # case files of this run: unique per process, so that two runs in one worktree never share a file
+
+
 def coq_flag(name, terms, fun):
     """indices of the cases on which the boolean Coq function `fun : pcase -> bool` is true (None: Coq failed)"""
     if not terms:
         return []
+    name = name + RUN_TAG[0]
     idx, log = vlib.coq_bad_idx(name, "Share ShareWire", "", "", terms, f"fun c => negb ({fun} c)", "pcase", shard=150,
                                 needs=["theories/ShareWire.vo"])
     return idx
 
 
 def correspondence(ctx, cases, side):
-    name = f"c18_{side}"
+    name = f"c18_{side}{RUN_TAG[0]}"
     terms, idx = [], []
     for i, c in enumerate(cases):
         t = c.coq if hasattr(c, "coq") else coq_case(c)
@@ -2013,6 +2017,21 @@ def shape_key(c: Case):
 
 
 def run(ctx: vlib.Ctx):
+    import glob
+    import os
+    RUN_TAG[0] = f"_s{ctx.seed}_p{os.getpid()}"
+    try:
+        run0(ctx)
+    finally:
+        for f in glob.glob(os.path.join(vlib.COQ, "cases", f"*c18_*{RUN_TAG[0]}_*")) + \
+                glob.glob(os.path.join(vlib.COQ, "cases", f".*c18_*{RUN_TAG[0]}_*")):
+            try:
+                os.remove(f)
+            except OSError:
+                pass
+
+
+def run0(ctx: vlib.Ctx):
     ctx.coverage["rule"] = (
         "a case = generated schema (1-4 dataclasses incl. format mixins, per-class Config.dialect / ADD_DIALECT_SUPPORT, "
         "types over atoms, date/Decimal, Any, pass_through, Optional, 8 sequence origins, tuples, named tuples, 6 mapping "
@@ -2039,6 +2058,10 @@ def run(ctx: vlib.Ctx):
     # (T) encode side: which origins are submitted to K15's rule, which are always rebuilt (ChainMap, tuples, named
     # tuples, TypedDict) is the if/elif chain of pack.py:pack_collection (kernel K118b); K118b + K15 = Share.cp
     ctx.theorems("props/C18_pack_kernel.vo", PACK_KERNEL_THEOREMS, kernels=["K15", "K118b"])
+    # (T) the effective no_copy_collections (Share.effN: call dialect > Config.dialect > default dialect > ()) is
+    # CodeBuilder.get_dialect_or_config_option (K3) as called at every site that fills ValueSpec.no_copy_collections;
+    # the sites that fill / read it (K118c): packer roots fill, pack_collection's rule reads, nothing on the decode side
+    ctx.theorems("props/C18_nocopy_threading.vo", ["C18_effective_nocopy_is_source", "C18_nocopy_sites"], kernels=["K3", "K118c"])
     br = ctx.theorems("props/C18_share.vo", THEOREMS)
     if not ctx.quick() and br.ok:
         # second opinion: the independent checker re-validates the compiled library and reports every axiom
